@@ -62,6 +62,19 @@ func (c *Ctx) IsKnown(rule, construct string) bool {
 	return c.knownKeys[rule+"|"+construct]
 }
 
+// KnownConstructs lists the constructs of the known findings of a rule (attribution of moved code only).
+func (c *Ctx) KnownConstructs(rule string) []string {
+	c.IsKnown(rule, "")
+	var out []string
+	for k := range c.knownKeys {
+		if strings.HasPrefix(k, rule+"|") {
+			out = append(out, strings.TrimPrefix(k, rule+"|"))
+		}
+	}
+	sort.Strings(out)
+	return out
+}
+
 func NewCtx(p *Prog, prop, tier string) *Ctx {
 	return &Ctx{P: p, Prop: prop, Tier: tier, RuleHits: map[string]int{}, Funcs: map[string]bool{}, Rules: map[string]string{}}
 }
